@@ -86,6 +86,15 @@ Definition chk_post (fl : kflags) (s : ipstate) (pods : list (str * str)) (ip : 
   | (o, s') => Bool.eqb (rel_reported_unreleased o) ocode202 && state_eqb s' ostate
   end.
 
+(** several entries in ONE request: the handler treats them one after the other, each on its own; the answer
+    is 202 as soon as one of them was not released *)
+Definition post_batch (fl : kflags) (s : ipstate) (pods : list (str * str)) (es : list (str * list str)) : bool * ipstate :=
+  fold_left (fun acc e => let '(o, s') := post_entry fl (snd acc) pods (fst e) (mk_entry (snd e)) in
+                          (fst acc || rel_reported_unreleased o, s')) es (false, s).
+Definition chk_post_batch (fl : kflags) (s : ipstate) (pods : list (str * str)) (es : list (str * list str))
+           (ocode202 : bool) (ostate : ipstate) : bool :=
+  let '(u, s') := post_batch fl s pods es in Bool.eqb u ocode202 && state_eqb s' ostate.
+
 (** monitors on the implementation's own behaviour *)
 (** list_release_roundtrip: posting back the entry that was listed for [ip] (pod not in the
     lister) answers 200 and removes exactly [ip] *)
@@ -113,6 +122,23 @@ Definition mon_exact (before : ipstate) (ip : str) (f : list str) (after : ipsta
   | Some c, None => str_eqb c (release_key fixed_kflags (mk_entry f))
   | _, _ => true
   end.
+
+(** the same for a request with several entries: only posted IPs disappear, each only when its key is the key
+    SOME entry posted with that IP denotes *)
+Definition mon_exact_batch (before : ipstate) (es : list (str * list str)) (after : ipstate) : bool :=
+  forallb (fun b => existsb (fun a => str_eqb (fst a) (fst b) && str_eqb (snd a) (snd b)) before) after &&
+  forallb (fun a => existsb (fun b => str_eqb (fst a) (fst b) && str_eqb (snd a) (snd b)) after ||
+                    existsb (fun e => str_eqb (fst e) (fst a) &&
+                                      str_eqb (snd a) (release_key fixed_kflags (mk_entry (snd e)))) es) before.
+(** every entry of the request that denotes the current key of its IP (an omitted appType meaning statefulset)
+    and whose pod is not running is released, wherever it stands in the request *)
+Definition mon_batch_releases (before : ipstate) (pods : list (str * str)) (es : list (str * list str)) (after : ipstate) : bool :=
+  forallb (fun e => let en := mk_entry (snd e) in
+                    match lookup_ip before (fst e) with
+                    | Some c => negb (str_eqb c (release_key fixed_kflags en)) ||
+                                existsb (fun p => str_eqb (fst p) (e_ns en) && str_eqb (snd p) (e_pod en)) pods ||
+                                match lookup_ip after (fst e) with None => true | Some _ => false end
+                    | None => true end) es.
 
 (** key_injective on observed keys: two pods with equal keys have equal (ns, app, pod) *)
 Definition mon_inj (k1 : str) (id1 : list str) (k2 : str) (id2 : list str) : bool :=
